@@ -4,7 +4,7 @@ OWN = {'P_Dims', 'P_Map', 'P_Shallow', 'P_NoFault', 'UnknownEvent'}
 
 def run(ctx):
     c01.run(ctx, 'views', OWN)
-    ctx.assumptions.append('virtual / dereference-adaptor locators are covered by value tags in the C14/C09 drivers, not by addresses here')
+    ctx.assumptions.append('virtual and dereference-adaptor locators have no addresses: they are covered by value (pixels carry their base coordinates), without the shallow-write clause (they are read-only)')
 
 def replay(ctx, path):
     ctx.validate('Trace_Views', [path])
